@@ -747,7 +747,7 @@ class Node(object):
         if self.slotted or isinf(self.c):
             next_end_service_date = float("Inf")
             for ind in self.all_individuals:
-                if not ind.is_blocked and ind.service_end_date >= self.now:
+                if not ind.is_blocked and ind.service_end_date is not False and ind.service_end_date >= self.now:
                     if ind.service_end_date < next_end_service_date:
                         self.possible_next_events['end_service'] = ([ind], ind.service_end_date)
                         next_end_service_date = ind.service_end_date
